@@ -15,7 +15,7 @@ EXTENDS MSPQ, TLC
 \* everything is bound unless listed here
 FreeLeaf(proto, round, kind, leaf, senderIsPrev) ==
   \/ proto = "session" /\ round = 1 /\ kind = "b" /\ leaf = "/Ck"     \* fresh per-party commitment key; enters the common seed
-  \/ proto \in {"redist", "redistAnchor"} /\ ~senderIsPrev            \* next-only holders send empty, ignored messages
+  \/ proto \in {"redist", "redistAnchor", "redistNew"} /\ ~senderIsPrev            \* next-only holders send empty, ignored messages
   \/ proto = "ecbbot"                                                 \* the base OT has no consistency check: a deviator only spoils its own output
   \/ proto = "rvole" /\ round # 3                                     \* the multiplier's check (theta, eta, mu) is on Alice's last message only
 Bound(proto, round, kind, leaf, senderIsPrev) == ~FreeLeaf(proto, round, kind, leaf, senderIsPrev)
